@@ -146,6 +146,9 @@ def k40(args):
             for o in objs:
                 o.state(); o.is_contradiction(); o.get_data()
             res.append([dump(objs)])
+        elif t == 18:
+            from lnn import Loss
+            res.append([fr(model.loss_fn({Loss.UNCERTAINTY: 1})[0])])
         elif t == 14:
             from lnn import Loss
             res.append([fr(model.loss_fn([Loss.CONTRADICTION])[0])])
